@@ -171,6 +171,12 @@ def correspondence(ctx):
         "(tree, chain) whose last step changes the ordered nested form or raises"
     )
     rng = ctx.subrng("corr")
+    # which `unrooted` does the implementation under test have?  The model carries both the one
+    # as coded in the pinned commit and the repaired one (fixes/C09-unrooted-sister-edge.patch);
+    # a probe on the known witness selects the variant the tie is checked against.
+    probe = ["", None, [["n2", Fraction(7, 8), [["a", Fraction(5, 4), []], ["b", Fraction(13, 8), []]]], ["c", Fraction(2), []]]]
+    fixed = Fraction(float(U.build_real(probe).unrooted().get_distances()[("a", "b")])) == Fraction(23, 8)
+    bump(out, "unrooted_variant", "repaired" if fixed else "as-coded")
     cases = []  # (nested, ops, meta)
     small = U.exhaustive_small_trees()
     for t in small:
@@ -216,7 +222,7 @@ def correspondence(ctx):
             if len(obs[-1][0][2]) < 2:
                 break  # a single-child root (keep_root=True): later re-rooting would turn the old root into a tip
         reals.append((t, chain, meta, obs))
-        reqs.append(("ops", dict(tree=U.frac_json(t), spec=True, ops=[_model_op(o) for o in chain])))
+        reqs.append(("ops", dict(tree=U.frac_json(t), spec=True, unrooted_fixed=fixed, ops=[_model_op(o) for o in chain])))
     replies = ctx.driver.batch(reqs)
     for (t, chain, meta, obs), rep in zip(reals, replies):
         out["evaluations"] += 1
@@ -427,7 +433,15 @@ def _variant(rng, t):
 
     t = copy.deepcopy(t)
     r = rng.random()
-    if r < 0.35:
+    if r < 0.3:
+        # same unrooted topology seen from another internal node (only meaningful for unrooted trees:
+        # keeps the root degree >= 3 when the new root has >= 2 children)
+        cands = [p for p, n in U.n_internal_paths(t) if p and len(n[2]) >= 2]
+        if cands and len(t[2]) >= 3:
+            t2 = U.n_reroot(t, rng.choice(cands))
+            if set(U.n_tips(t2)) == set(U.n_tips(t)) and len(t2[2]) >= 3:
+                return t2, "rerooted"
+    if r < 0.45:
         def shuffle(x):
             rng.shuffle(x[2])
             for c in x[2]:
